@@ -89,6 +89,16 @@ def scenarios(ctx):
         s["sched_prob"] = 35
         s["sched_max_us"] = 150
         s["watchdog_s"] = 40
+    # the same named std::function object submitted again and again (one submitter, one worker: tickets stay in order)
+    lv = p(1, 8, 1, 2, 3)
+    lv["lvalue"] = True
+    lv["sched_prob"], lv["sched_max_us"], lv["watchdog_s"] = 35, 150, 40
+    sc.append(lv)
+    # several try_pop() callers racing with a wait_and_pop() consumer on a queue that is nearly empty all the time
+    tp = q(1, 40, 1, -1, 3, True, 1)
+    tp["script"] = [s if k != "trypopper" else [120] for k, s in zip(tp["kind"], tp["script"])]
+    tp["sched_prob"], tp["sched_max_us"], tp["watchdog_s"] = 20, 30, 40
+    sc.append(tp)
     # "shutdown storms": many short executions in which consumers are (about to be) asleep on an empty queue when another
     # thread shuts it down - the window between a consumer's predicate check and its sleep cannot be widened by a hook
     # (it is inside std::condition_variable::wait), it can only be hit by repetition with varying delays
